@@ -2,9 +2,9 @@ SPECIFICATION GSpec
 CONSTANTS
   Runs = {1}
   Params <- GenParams
-  OrderKinds = {"balance", "trade"}
-  NS = {2, 3, 4}
+  OrderKinds = {"trade"}
+  NS = {2, 3, 4, 5}
   RECS = {{}, {2}, {3}, {1, 4}}
-  MaxOrders = 3
+  MaxOrders = 4
 INVARIANT Emit PrefixAlways CompleteInOrder
 CHECK_DEADLOCK FALSE
